@@ -206,6 +206,11 @@ pub enum Expr {
     /// a binary operator node that has only its left operand (`a +`): malformed but parseable;
     /// the present operand must still be evaluated before the arity error is reported
     Dangling(Bin, Box<Expr>),
+    /// a tree edited by hand through the public accessors (`children_mut().push(..)`): the node
+    /// of the inner expression (`root == false`) or a `RootNode` around it (`root == true`) gets
+    /// further children. No source text means this; all children must still be evaluated, in
+    /// order, before the operator looks at how many there are.
+    Extra(bool, Box<Expr>, Vec<Expr>),
 }
 
 impl Expr {
@@ -234,6 +239,7 @@ impl Expr {
             Expr::Assign(_, _, e) => e.size(),
             Expr::AssignTo(_, t, e) => t.size() + e.size(),
             Expr::Dangling(_, a) => a.size(),
+            Expr::Extra(_, a, v) => a.size() + v.iter().map(|e| e.size()).sum::<usize>(),
         }
     }
 
@@ -247,6 +253,7 @@ impl Expr {
             Expr::Assign(_, _, e) => e.depth(),
             Expr::AssignTo(_, t, e) => t.depth().max(e.depth()),
             Expr::Dangling(_, a) => a.depth(),
+            Expr::Extra(_, a, v) => a.depth().max(v.iter().map(|e| e.depth()).max().unwrap_or(0)),
         }
     }
 
@@ -258,6 +265,7 @@ impl Expr {
             Expr::Un(_, a) | Expr::Dangling(_, a) => a.has_assignment(),
             Expr::Bin(_, a, b) => a.has_assignment() || b.has_assignment(),
             Expr::Tuple(v) | Expr::Chain(v) => v.iter().any(|e| e.has_assignment()),
+            Expr::Extra(_, a, v) => a.has_assignment() || v.iter().any(|e| e.has_assignment()),
         }
     }
 
@@ -282,6 +290,34 @@ impl Expr {
         let s = self.render();
         LOOSE.with(|l| l.set(false));
         s
+    }
+
+    /// Like `render_loose`, and without any blank around operators and separators (`x=-5`,
+    /// `a&&!b`, `f(1);g(2),h(3)`).
+    pub fn render_tight(&self) -> String {
+        let loose = self.render_loose();
+        // blanks inside string literals stay
+        let mut out = String::with_capacity(loose.len());
+        let mut in_string = false;
+        let mut escaped = false;
+        for c in loose.chars() {
+            if in_string {
+                out.push(c);
+                if escaped {
+                    escaped = false;
+                } else if c == '\\' {
+                    escaped = true;
+                } else if c == '"' {
+                    in_string = false;
+                }
+            } else if c == '"' {
+                in_string = true;
+                out.push(c);
+            } else if c != ' ' {
+                out.push(c);
+            }
+        }
+        out
     }
 
     /// Rendered so that it can stand as an operand: compound expressions get parentheses.
@@ -321,7 +357,10 @@ impl Expr {
             Expr::Bin(b, l, r) => {
                 let loose_left = LOOSE.with(|x| x.get())
                     && matches!(&**l, Expr::Bin(lb, _, _) if lb.precedence() >= b.precedence());
-                if loose_left {
+                let loose = LOOSE.with(|x| x.get());
+                // a unary operator binds tighter than every binary one except `^`
+                let loose_unary_left = loose && matches!(&**l, Expr::Un(..)) && *b != Bin::Exp;
+                if loose_left || loose_unary_left {
                     l.render_bare(out);
                 } else {
                     l.render_operand(out);
@@ -329,7 +368,14 @@ impl Expr {
                 out.push(' ');
                 out.push_str(b.sym());
                 out.push(' ');
-                r.render_operand(out);
+                // a right operand of strictly higher precedence needs no parentheses
+                let loose_right = loose
+                    && matches!(&**r, Expr::Bin(rb, _, _) if rb.precedence() > b.precedence());
+                if loose_right {
+                    r.render_bare(out);
+                } else {
+                    r.render_operand(out);
+                }
             },
             Expr::Tuple(v) => {
                 out.push('(');
@@ -346,7 +392,12 @@ impl Expr {
                 out.push(' ');
                 out.push_str(op.sym());
                 out.push(' ');
-                e.render_operand(out);
+                // every unary and binary operator binds tighter than an assignment
+                if LOOSE.with(|x| x.get()) && matches!(&**e, Expr::Bin(..) | Expr::Un(..)) {
+                    e.render_bare(out);
+                } else {
+                    e.render_operand(out);
+                }
             },
             Expr::AssignTo(op, t, e) => {
                 t.render_operand(out);
@@ -359,6 +410,14 @@ impl Expr {
                 l.render_operand(out);
                 out.push(' ');
                 out.push_str(b.sym());
+            },
+            Expr::Extra(root, a, v) => {
+                // (display only: not source text)
+                out.push_str(if *root { "«root " } else { "«node " });
+                a.render_bare(out);
+                out.push_str(" + children: ");
+                render_seq(v, ", ", out);
+                out.push('»');
             },
         }
     }
@@ -444,6 +503,14 @@ impl Expr {
                 vec![t.assemble_operand(wrap), e.assemble_operand(wrap)],
             ),
             Expr::Dangling(b, l) => mk(b.operator(), vec![l.assemble_operand(wrap)]),
+            Expr::Extra(root, a, v) => {
+                let inner = a.assemble_inner(wrap);
+                let mut n = if *root { mk(Operator::RootNode, vec![inner]) } else { inner };
+                for e in v {
+                    n.children_mut().push(e.assemble_operand(wrap));
+                }
+                n
+            },
         }
     }
 
@@ -480,6 +547,10 @@ impl Expr {
             Expr::Dangling(b, l) => Json::obj()
                 .with("dangling", Json::s(b.sym()))
                 .with("l", l.to_json()),
+            Expr::Extra(root, a, v) => Json::obj()
+                .with("extra_children_of", Json::s(if *root { "root" } else { "node" }))
+                .with("inner", a.to_json())
+                .with("extra", Json::Arr(v.iter().map(|e| e.to_json()).collect())),
         }
     }
 
@@ -530,6 +601,17 @@ impl Expr {
                 op,
                 j.str_field("name")?.to_string(),
                 Box::new(Expr::from_json(j.field("rhs")?)?),
+            ));
+        }
+        if let Some(k) = j.get("extra_children_of") {
+            let mut v = Vec::new();
+            for e in j.arr_field("extra")? {
+                v.push(Expr::from_json(e)?);
+            }
+            return Ok(Expr::Extra(
+                k.as_str() == Some("root"),
+                Box::new(Expr::from_json(j.field("inner")?)?),
+                v,
             ));
         }
         if let Some(b) = j.get("dangling") {
@@ -620,6 +702,7 @@ impl Expr {
             Expr::Assign(_, _, e) => vec![e],
             Expr::AssignTo(_, t, e) => vec![t, e],
             Expr::Dangling(_, a) => vec![a],
+            Expr::Extra(_, a, v) => std::iter::once(&**a).chain(v.iter()).collect(),
         }
     }
 
@@ -647,6 +730,15 @@ impl Expr {
             },
             Expr::Assign(op, n, _) => Expr::Assign(*op, n.clone(), Box::new(c)),
             Expr::Dangling(b, _) => Expr::Dangling(*b, Box::new(c)),
+            Expr::Extra(root, a, v) => {
+                if i == 0 {
+                    Expr::Extra(*root, Box::new(c), v.clone())
+                } else {
+                    let mut w = v.clone();
+                    w[i - 1] = c;
+                    Expr::Extra(*root, a.clone(), w)
+                }
+            },
             Expr::AssignTo(op, t, e) => {
                 if i == 0 {
                     Expr::AssignTo(*op, Box::new(c), e.clone())
@@ -691,6 +783,14 @@ fn render_seq(v: &[Expr], sep: &str, out: &mut String) {
             // assignments are fine bare as sequence elements; other compound elements of a
             // sequence are rendered as operands (parenthesised)
             Expr::Assign(..) | Expr::AssignTo(..) => e.render_bare(out),
+            // `,` binds tighter than `;`: a tuple as the last chain element needs no parentheses
+            // (only as the LAST element: after the tuple has begun, a further `;` is taken into
+            // its last element by the tree builder)
+            Expr::Tuple(t) if sep == "; " && i + 1 == v.len() && t.len() >= 2 && LOOSE.with(|x| x.get()) => {
+                render_seq(t, ", ", out)
+            },
+            // ... and so does every operator
+            Expr::Bin(..) | Expr::Un(..) if LOOSE.with(|x| x.get()) => e.render_bare(out),
             _ => e.render_operand(out),
         }
     }
@@ -784,7 +884,7 @@ impl Expr {
             Expr::Tuple(v) | Expr::Chain(v) => v.len() >= 2 && v.iter().all(|e| e.is_renderable()),
             Expr::Assign(_, n, e) => !crate::env::API_ONLY_NAMES.contains(&n.as_str()) && e.is_renderable(),
             // assembled only: how the parser groups a dangling operator is not this check's business
-            Expr::Dangling(..) => false,
+            Expr::Dangling(..) | Expr::Extra(..) => false,
             // a bare identifier before `=` would be read as the variable itself
             Expr::AssignTo(_, t, e) => {
                 !matches!(**t, Expr::Read(_)) && t.is_renderable() && e.is_renderable()
